@@ -7,6 +7,14 @@ From DV Require Import Model.Time Model.DKGExec Gen.Consts Corr.CorrBase.
 Import ListNotations.
 Open Scope Z_scope.
 
+(* compact notation of the case files for long byte strings: [B len 0xHEX] (big-endian) *)
+Fixpoint bytes_of_Z (n : nat) (z : Z) (acc : bytes) : bytes :=
+  match n with
+  | O => acc
+  | S n' => bytes_of_Z n' (z / 256) (z mod 256 :: acc)
+  end.
+Definition B (len z : Z) : bytes := bytes_of_Z (Z.to_nat len) z [].
+
 Fixpoint list_eqb {A} (eqb : A -> A -> bool) (a b : list A) : bool :=
   match a, b with
   | [], [] => true
